@@ -422,6 +422,7 @@ func runAnnealCase(c *Ctx, ac annealCase) {
 	seq := []seqEntry{}
 	modelWired := false
 	sink := &sinkWriter{}
+	reconfigured := false
 	build := protect(func() {
 		if ac.annealer == "elapsed" {
 			ann = &annealers.ElapsedTimeTrackingAnnealer{}
@@ -436,6 +437,16 @@ func runAnnealCase(c *Ctx, ac annealCase) {
 		}
 		ann.SetSolutionExplorer(hook)
 		ann.SetLogHandler(loggers.NewNullLogger()) // as scenario.Runner.SetAnnealer does; reaches the explorer
+		// every other case is configured TWICE: first with another budget (a function of the case, so that a replay
+		// repeats it), then with the real one — the budget in force is the one configured last, a budget of 0 included
+		if (ac.N+len(ac.lineup)+ac.at)%2 == 1 {
+			earlier := int64(1 + (ac.N*7+ac.at+len(ac.lineup))%9)
+			if (ac.N+ac.at)%5 == 0 {
+				earlier = 0
+			}
+			ann.SetParameters(parameters.Map{"MaximumIterations": earlier})
+			reconfigured = true
+		}
 		params := parameters.Map{"MaximumIterations": int64(ac.N)}
 		if ac.hasTemp() {
 			params["StartingTemperature"] = ac.T0
@@ -518,6 +529,9 @@ func runAnnealCase(c *Ctx, ac annealCase) {
 	if build != "" {
 		c.Fail("harness:build-annealer", "anneal:harness-build", fmt.Sprintf("%+v: %s", ac, build), nil)
 		return
+	}
+	if reconfigured {
+		c.Stat(fmt.Sprintf("configured twice (budget last set: %s)", nBucket(ac.N)))
 	}
 	merged := len(ac.lineup) > 0 && ac.lineup[0] == 'R'
 	cur0 := 0
